@@ -444,6 +444,11 @@ def sliceStr (p : S) (lo hi : Int) : Outcome S :=
   if 0 ≤ lo ∧ lo ≤ hi ∧ hi ≤ (p.length : Int) then .ok ((p.drop lo.toNat).take (hi.toNat - lo.toNat))
   else .panic
 
+/-- the domain on which `sliceStr` / `revCompS` are Go's byte slicing and rune mapping: one byte per
+code point.  Sequences are nucleotide / protein letters, so this is the honest domain of
+`GetSequence`; on other text Go slices the UTF-8 bytes and the model below is not claimed. -/
+def asciiS (s : S) : Bool := s.all (· < 128)
+
 /-- `transform.ReverseComplement` on code points (ASCII domain of Model/Transform) -/
 def revCompS (s : S) : S := (Transform.revComp (s.map Char.ofNat)).map Char.toNat
 
